@@ -23,8 +23,9 @@ import (
 )
 
 type adapter struct {
-	mu sync.Mutex
-	w  *world
+	mu    sync.Mutex
+	w     *world
+	coord *coordinator // family H only: forces the overlap of concurrent PutFile calls
 }
 
 var _ edgesync.SyncTransport = (*adapter)(nil)
@@ -182,6 +183,9 @@ func (a *adapter) Reconcile(ctx context.Context, hub string, pending []*edgesync
 			w.touch(p, "vanish between reconcile and send")
 		}
 	}
+	if w.spec.Concurrent > 1 {
+		a.startWaves(len(res.Missing))
+	}
 	// a JSON round trip: fresh slices, nothing shared with hub objects
 	out := &edgesync.ReconcileResult{
 		Missing:   append([]string(nil), res.Missing...),
@@ -215,6 +219,9 @@ func cutOf(code string, n int) int {
 }
 
 func (a *adapter) PutFile(ctx context.Context, hub string, entry *edgesync.LedgerEntry, body io.Reader, offset int64) (*edgesync.PutResult, error) {
+	if a.w.spec.Concurrent > 1 {
+		return a.putConcurrent(entry, body, offset)
+	}
 	a.mu.Lock()
 	defer a.mu.Unlock()
 	w := a.w
